@@ -42,6 +42,7 @@ def check(ctx):
   r7(ctx, cls)
   pool_request_paths(ctx)
   config(ctx)
+  dead_release_keeps_subscription(ctx)
 
 
 # configured bound -> the pool provider's property it must be read from (SinkProvider(WatermarkPoolSink, ..., min_watermark=, max_watermark=, max_queue_len=))
@@ -136,6 +137,22 @@ def r2(ctx, cls):
   ok = all(k in ('__init__', '_Get', '_Release', '_Dequeue') for k in writers) and writers.get('_Get') == ['+=1'] and writers.get('__init__') == ['=0'] \
     and all(w == '-=1' for k in ('_Release', '_Dequeue') for w in writers.get(k, []))
   ctx.ob('C07.R2', cls, '_current_size written only by _Get (+1) and _Release/_Dequeue (-1)', ok, 'writers: %s' % writers, why)
+  # _Get: a connection that was counted (+1) and is closed again inside _Get (e.g. because its open failed) gives its slot back
+  g = prog.func(WM, 'WatermarkPoolSink._Get')
+  # a call guarded by a handler is a call its author expects to fail: follow that edge
+  guarded = set(id(c) for t in ast.walk(g.node) if isinstance(t, ast.Try) and t.handlers for st in t.body for c in ast.walk(st) if isinstance(c, ast.Call))
+  for ev, ex in enum_paths(ctx, g, lambda call, armed: ['Exception'] if id(call) in guarded else []):
+    sw = size_writes(ev)
+    inc = [w for w in sw if w[1:] == ('+', '1')]
+    if not inc:
+      continue
+    created = [U(e.node.targets[0]) for e in ev if e.kind == 'stmt' and isinstance(e.node, ast.Assign) and isinstance(e.node.value, ast.Call) and call_attr(e.node.value) == 'CreateSink']
+    closed = [e for e in ev if e.kind == 'call' and ((call_attr(e.node) == 'Close' and U(e.node.func.value) in created) or
+                                                   (call_attr(e.node) == '_DiscardSink' and e.node.args and U(e.node.args[0]) in created))]
+    if closed:
+      dec = [w for w in sw if w[1:] == ('-', '1')]
+      ctx.ob('C07.R2', g, 'a connection counted and then closed inside _Get gives its slot back', len(dec) == 1,
+             'a path of _Get increments the size, closes the new connection (%s) and leaves with %d decrements' % (U(closed[0].node), len(dec)), why)
   dq = prog.func(WM, 'WatermarkPoolSink._Dequeue')
   loops = [n for n in dq.node.body if isinstance(n, ast.While)]
   n = 0
@@ -432,3 +449,26 @@ def r7(ctx, cls):
   fc = prog.func(WM, 'WatermarkPoolSink._FlushCache')
   tfc = U(fc.node).replace(' ', '')
   ctx.ob('C07.R7', fc, 'flush discards every cached connection', 'self._DiscardSink(' in tfc and 'inself._cache' in tfc and 'if' not in tfc.split('inself._cache')[1][:3], '_FlushCache changed', why, nontrivial=False)
+
+
+def dead_release_keeps_subscription(ctx, rule='C07.R5'):
+  """A connection that comes back dead is still subscribed when the pool reacts: the transports raise their fault signal asynchronously (Observable.Set
+  schedules the callbacks) and answer the failed request synchronously, so the release runs BEFORE the fault notification; unsubscribing there cuts the chain
+  to the layer above (the resurrector never learns that the endpoint failed)."""
+  prog = ctx.prog
+  rl = prog.func(WM, 'WatermarkPoolSink._Release')
+  sink = rl.params[1]
+  why = ('a failed endpoint must put its resurrector into fail-fast mode: the fault of a pooled connection reaches the resurrector only through the pool\'s fault propagator, '
+         'which must still be subscribed when the (asynchronous) notification is delivered')
+  n = 0
+  for ev, ex in enum_paths(ctx, rl):
+    fs = facts(ev)
+    if ('self.state==ChannelState.Closed', True) in fs:
+      continue
+    if ('%s.state==ChannelState.Closed' % sink, True) not in fs:
+      continue
+    n += 1
+    unsub = [e for e in ev if e.kind == 'call' and (U(e.node.func) == 'self._DiscardSink' or (call_attr(e.node) == 'Unsubscribe' and sink in U(e.node.func)))]
+    ctx.ob(rule, rl, 'a connection released dead keeps its fault subscription (the pool closes itself, it does not discard that connection)', not unsub,
+           'the dead-connection branch of _Release runs %s' % [U(e.node) for e in unsub], why)
+  ctx.floor(rule, 'dead-connection release paths', n, 1)
